@@ -672,6 +672,57 @@ class SeqRun:
         self.steps = 0
 
 
+class Stepper:
+    """A second sequence alive at the same time as the one under judgement (another
+    DALI line, another driver object in the same process): advanced a few commands
+    at a time from the main sequence's env hook, fault-free, on a bus of its own."""
+
+    def __init__(self, gen, bus, cap=5000):
+        self.gen, self.bus, self.cap = gen, bus, cap
+        self.resp = None
+        self.done = False
+        self.n = 0
+        self.status = self.value = self.exc = None
+
+    def step(self, k=1):
+        for _ in range(k):
+            if self.done:
+                return
+            while True:
+                try:
+                    cmd = self.gen.send(self.resp)
+                except StopIteration as e:
+                    self.done, self.status, self.value = True, "return", e.value
+                    return
+                except Exception as e:          # noqa: BLE001
+                    self.done, self.status, self.exc = True, "raise", e
+                    return
+                self.resp = None
+                if not isinstance(cmd, (seq_sleep, seq_progress)):
+                    break
+            f = cmd.frame
+            if cmd.devicetype != 0:
+                self.bus.transmit(16, EnableDeviceType(cmd.devicetype).frame.as_integer)
+            out = self.bus.transmit(len(f), f.as_integer)
+            if cmd.sendtwice:
+                out = self.bus.transmit(len(f), f.as_integer)
+            if cmd.response is not None:
+                if out[0] == "silent":
+                    self.resp = cmd.response(None)
+                elif out[0] == "value":
+                    self.resp = cmd.response(dali.frame.BackwardFrame(out[1]))
+                else:
+                    self.resp = cmd.response(dali.frame.BackwardFrameError(out[1]))
+            self.n += 1
+            if self.n >= self.cap:
+                self.done, self.status = True, "cap"
+                self.gen.close()
+
+    def finish(self):
+        while not self.done:
+            self.step(64)
+
+
 def run_sequence(gen, bus, answer_faults=None, cap=5000, env=None, log=None):
     """Step the real generator against the bus.  answer_faults maps the index
     of a yielded *command* to "drop" | "garble": what the sequence is told
